@@ -7,6 +7,7 @@
 -/
 import Lace.Proofs.CmdInteger
 import Lace.Proofs.CmdTransport
+import Lace.Proofs.CmdNoPanic
 namespace Lace.C14
 open Lace.Cmd Lace.CmdGrammar
 
@@ -138,5 +139,131 @@ theorem swapSeparators_ok :
 example : session (Reader.from (some "help;bogus".toList) (encode "move r1 5\nquit".toList)) =
     { events := [some .help, none, some (.move (.reg 1#3) 5#16), some .quit], ending := .eof } := by
   rw [session_eq_lines]; decide
+
+/-! ## Command lines -/
+
+/-- **`Command::try_from` is the documented grammar.**  On every line in its domain (no `;`, no
+newline, a first word — which is what the readers deliver, `reader_lines_valid`), the model of
+`Command::try_from` (byte cursor, `NaiveType` pre-check, `TryParse` chain, name tables) yields
+exactly what the grammar prescribes: the one command with the documented argument values, or a
+rejection — except for the word `sudo`, which exits the process (known finding K1). -/
+theorem parse_command_eq_grammar (line : List Char) (h : ValidLine line) :
+    Cmd.parseLine line =
+      if firstWord line = "sudo".toList then .exit 0 else CmdGrammar.parseLine line :=
+  parseLine_eq line h.1 h.2
+
+/-- **No line makes the parser panic**: none of `assert!(self.cursor == 0)`,
+`expect("missing command name")`, `debug_assert!(!matches!(ch, ';' | '\n'))`, the `str` slices at
+byte cursors, `split_at`, `arg_count += 1`, `arg_count() + 1`,
+`debug_assert!(iter.expect_end(0, 0).is_ok())`, the `assert!` after the digit loop, or the
+(now checked) `i32` arithmetic can fire on a valid line. -/
+theorem parse_no_panic (line : List Char) (h : ValidLine line) (site : String) :
+    Cmd.parseLine line ≠ .panic site :=
+  parseLine_noPanic h site
+
+/-- Every line either reader delivers is, once trimmed and unless blank, in the domain of
+`Command::try_from`. -/
+theorem reader_lines_valid (t l : List Char) (hl : l ∈ textLines t) (hne : trim l ≠ []) :
+    ValidLine (trim l) :=
+  valid_of_textLines hl hne
+
+/-- **A whole session never panics**: for every `--command` argument and every standard input
+that is valid UTF-8, looping `Command::read_from` to the end of the input ends with end of
+input or with `sudo`'s exit, never with a panic. -/
+theorem session_no_panic (a : Option (List Char)) (b : List Char) (site : String) :
+    (session (Reader.from a (encode b))).ending ≠ .panic site := by
+  rw [session_eq_lines]
+  apply sessionL_noPanic
+  intro l hl hne s
+  have hv : ValidLine (trim l) := by
+    rcases List.mem_append.1 hl with h | h
+    · exact valid_of_textLines h hne
+    · exact valid_of_textLines h hne
+  exact parseLine_noPanic hv s
+
+/-- The grammar's name tables are unambiguous: no word (in any letter case) names two
+commands, so `lookup` finding the first match finds the only one. -/
+theorem commandTable_unambiguous :
+    ((commandTable ++ [(CommandName.stepOver, stepNames), (CommandName.breakList, breakNames)]).flatMap
+        (fun e => e.2.map (fun n => n.toList.map toLower))).Nodup ∧
+    (stepTable.flatMap (fun e => e.2.map (fun n => n.toList.map toLower))).Nodup ∧
+    (breakTable.flatMap (fun e => e.2.map (fun n => n.toList.map toLower))).Nodup := by
+  decide
+
+/-- Offsets delivered to the debugger are `i16` values. -/
+def MemLoc.offsetInRange : MemLoc → Prop
+  | .pcOffset o => -32768 ≤ o ∧ o ≤ 32767
+  | .label _ o => -32768 ≤ o ∧ o ≤ 32767
+  | .address _ => True
+
+theorem parse_offsets_in_range (t : List Char) (l : MemLoc) (h : memLoc t = .ok l) :
+    MemLoc.offsetInRange l := by
+  have hoff : ∀ r o, offset r = .ok o → -32768 ≤ o ∧ o ≤ 32767 := by
+    intro r o h
+    unfold offset at h
+    cases r with
+    | ok v =>
+      simp only [CmdGrammar.asI16] at h
+      by_cases hv : -32768 ≤ v ∧ v ≤ 32767
+      · simp only [hv, and_self, if_true, PR.ok.injEq] at h; subst h; exact hv
+      · simp [hv] at h
+    | none => simp at h
+    | err => simp at h
+    | panic s => simp at h
+  cases t with
+  | nil => simp [memLoc] at h
+  | cons c rest =>
+    unfold memLoc at h
+    by_cases hc : c = '^'
+    · simp only [hc, if_true] at h
+      cases rest with
+      | nil => simp at h; subst h; simp [MemLoc.offsetInRange]
+      | cons d ds =>
+        simp only [reduceCtorEq, if_false] at h
+        rcases offset_cases (integer (d :: ds)) with ⟨o, ho⟩ | ho
+        · rw [ho] at h; simp at h; subst h; exact hoff _ _ ho
+        · rw [ho] at h; simp at h
+    · simp only [hc, if_false] at h
+      cases hi : integer (c :: rest) with
+      | ok v =>
+        rw [hi] at h
+        simp only at h
+        cases ha : CmdGrammar.asU16 v with
+        | none => rw [ha] at h; simp at h
+        | some a => rw [ha] at h; simp at h; subst h; trivial
+      | err => rw [hi] at h; simp at h
+      | panic s => rw [hi] at h; simp at h
+      | none =>
+        rw [hi] at h
+        simp only at h
+        by_cases hs : isLabelStart c = true
+        · simp only [hs, not_true_eq_false, if_false] at h
+          cases hd : rest.dropWhile isLabelChar with
+          | nil => rw [hd] at h; simp at h; subst h; simp [MemLoc.offsetInRange]
+          | cons d ds =>
+            rw [hd] at h
+            simp only [reduceCtorEq, if_false] at h
+            rcases offset_cases (signedInteger (d :: ds)) with ⟨o, ho⟩ | ho
+            · rw [ho] at h; simp at h; subst h; exact hoff _ _ ho
+            · rw [ho] at h; simp at h
+        · simp [hs] at h
+
+example : ValidLine "move r1 #-07".toList := by
+  constructor
+  · intro c hc; revert c; decide
+  · decide
+example : Cmd.parseLine "move r1 #-07".toList = .ok (.move (.reg 1#3) 0xFFF9#16) := by decide
+example : CmdGrammar.parseLine "goto Foo-x10".toList = .ok (.goto (.label "Foo".toList (-16))) := by
+  decide
+example : CmdGrammar.parseLine "break add ^3".toList = .ok (.breakAdd (.pcOffset 3)) := by decide
+example : CmdGrammar.parseLine "s i 0".toList = .ok (.stepInto 1#16) := by decide
+example : CmdGrammar.parseLine "a".toList = .ok (.assembly (.pcOffset 0)) := by decide
+example : CmdGrammar.parseLine "mov r1 5".toList = .err := by decide      -- misspelling
+example : CmdGrammar.parseLine "goto r1".toList = .err := by decide       -- register ≠ address
+example : CmdGrammar.parseLine "eval  add r0, r0, #1".toList =
+    .ok (.eval "add r0, r0, #1".toList) := by decide
+/-- K1: the model exits on `sudo`, the grammar rejects the line. -/
+example : Cmd.parseLine "sudo rm".toList = .exit 0 ∧ CmdGrammar.parseLine "sudo rm".toList = .err := by
+  decide
 
 end Lace.C14
